@@ -303,6 +303,22 @@ func (m *monitor) start() *viol {
 	}
 	m.led, m.wit = o.ledger, o.wit
 	m.started = true
+	// trackers the genesis carried are decided trackers of the reference model
+	for _, pt := range m.rep.G.P.PreTrackers {
+		name := ethcmn.BytesToHash(pt.Raw)
+		a, cur, _ := extAmount(tLock, pt.Raw)
+		t := &trk{Name: name, Type: tLock, Owner: m.rep.G.U.Users[pt.Owner%len(m.rep.G.U.Users)].Addr, Raw: pt.Raw, Ext: extID(pt.Raw), Cur: cur, Amt: a,
+			Wit: m.wit, Votes: make([]int, len(m.wit)), Where: "passed", Decided: "yes"}
+		if pt.Failed {
+			t.Where, t.Decided = "failed", "no"
+		}
+		if recs := o.trackers[name]; len(recs) != 1 || recs[0].Store != t.Where {
+			// not a violation by itself: the statement speaks about what a later submission of the same external transaction may do
+			m.feats["genesis-tracker-not-imported-as-carried"]++
+		}
+		m.trk[name], m.ext[t.Ext] = t, name
+		m.feats["genesis-tracker:"+t.Where]++
+	}
 	return m.supplyCheck(o, 0)
 }
 
